@@ -139,6 +139,12 @@ impl Write for AdvWriter {
             }
         }
     }
+    /// a real socket gathers the slices of a vectored write into one (possibly short) write: do the same, under the same
+    /// schedule and error injection as `write` (the default implementation would only ever offer the first slice)
+    fn write_vectored(&mut self, bufs: &[io::IoSlice<'_>]) -> io::Result<usize> {
+        let all: Vec<u8> = bufs.iter().flat_map(|b| b.iter().copied()).collect();
+        self.write(&all)
+    }
     fn flush(&mut self) -> io::Result<()> {
         Ok(())
     }
